@@ -4,7 +4,8 @@ Builds corpus/INDEX.json (read by the thorough-tier corpus stage) from the obser
 (scripts/matrix.sh output; later files override earlier ones) and the intent encoded in the variant names:
   corpus/Cnn-*.diff        breaking: fires = Cnn plus every other check observed firing (cross detection)
   corpus/regress-Dk-*      reverse of a fix: fires = REGRESS[Dk] plus observed
-  corpus/benign-*          behaviour preserving: silent = all twenty checks
+  corpus/benign-*          behaviour preserving: silent = all twenty checks (sub-agents' variants: the property they were
+                           written for plus every check they once made alarm; the full cross product is in MATRIX.md)
   corpus/unresolved-*      behaviour preserving, known false alarms: fires = the checks observed firing, silent = the rest
   seeded/Cnn-vk/patch.diff sub-agent change: fires = what was observed
 It also refreshes checks_fired in seeded/*/meta.json. Prints what contradicts the intent; never edits checks."""
@@ -35,6 +36,8 @@ for a in args:
             if m and isinstance(v,list):
                 hist.setdefault('corpus/%s-%s-%s.diff'%(prefix,m.group(1),m.group(2)),set()).update(v)
 idx=[]; problems=[]
+try: BMETA=json.load(open(V+'/corpus/benign-agent-meta.json'))
+except Exception: BMETA={}
 def entry(file,kind,fires,silent): idx.append({'file':file,'kind':kind,'fires':sorted(set(fires)),'silent':sorted(set(silent))})
 for f in sorted(glob.glob(V+'/corpus/*.diff')):
     b=os.path.basename(f); key='corpus/'+b; o=obs.get(key)
@@ -44,11 +47,19 @@ for f in sorted(glob.glob(V+'/corpus/*.diff')):
         # behaviour preserving, but some checks still raise a false alarm on it (DESIGN §13.2): those are listed
         # under fires (kind "unresolved"), every other check must stay silent
         if not o: problems.append('%s: no longer alarms (rename to benign-)'%key)
-        entry(key,'unresolved',o,[p for p in ALL if p not in o])
+        m=re.search(r'(C\d\d)',b)
+        entry(key,'unresolved',o,[p for p in ([m.group(1)] if m else []) if p not in o])
     elif b.startswith('benign-'):
         if o: problems.append('%s: ALARM from %s'%(key,o))
         m=re.search(r'(C\d\d)',b)
-        silent=ALL  # every check must stay quiet on every behaviour-preserving variant (own property: m, past false alarms: hist)
+        # every check must stay quiet on every behaviour-preserving variant: scripts/matrix.sh shows that for the
+        # whole cross product (corpus/MATRIX.md). The thorough tier replays, per property, the hand-written ones
+        # and of the sub-agents' ones those written for that property or that once made its check alarm.
+        silent=ALL
+        if b.startswith('benign-agent'):
+            meta=BMETA.get(key,{})
+            silent=set([m.group(1)] if m else [])|set(meta.get('alarmed_on_arrival') or [])|set(meta.get('false_alarms') or [])|hist.get(key,set())
+            if meta.get('property'): silent.add(meta['property'])
         entry(key,'benign',[],silent)
     elif b.startswith('regress-'):
         d=b.split('-')[1]; want=REGRESS[d]
